@@ -19,7 +19,9 @@ def proj_name(n):
 
 
 def state(d):
-    items = sorted(([proj_name(k), d[k]] for k in d), key=lambda kv: kv[0])
+    # a key that is not a Name (only possible if the class accepted one) is projected as a marker
+    items = sorted(([proj_name(k) if isinstance(k, dns.name.Name) else ["?" + type(k).__name__], d[k]] for k in d),
+                   key=lambda kv: kv[0])
     return {"st": items, "n": len(d), "md": int(d.max_depth), "mi": int(d.max_depth_items)}
 
 
